@@ -19,6 +19,7 @@ static void procs_run(const plan *p)
         if (!more) { mon_boundary_commit(); quiescent = true; break; }
         if (tnow() > t0) mon_boundary_commit();         /* the previous instant is over */
         if (g_nviol) break;
+        if (g_rec_on && g_nevt < MAXEVT && (g_nevt == 0 || g_evt[g_nevt - 1] != tnow())) g_evt[g_nevt++] = tnow();
         mon_after_event();
         if (g_nviol || W.stop_judging) break;
         mon_boundary_eval();
@@ -34,7 +35,76 @@ static void procs_run(const plan *p)
     }
 }
 
+/* ---------------------------------------------------------------- single-fault sweep */
+typedef struct { int victim, stepk; int64_t delay, prio; int kind; int64_t arg; } placement;
+#define MAXPLACE 700
+static placement PL[MAXPLACE * 4];
+static int npl;
+static uint64_t pl_seed; static bool pl_valid; static plan pl_base; static char pl_cfg[128];
+
+static bool guard_op(int op) { return op >= OP_ACQ && op <= OP_CWAIT; }
+
+static void enumerate(uint64_t seed, const char *cfg)
+{
+    char c2[160];
+    snprintf(c2, sizeof c2, "faults=0,%s", cfg);
+    if (pl_valid) plan_free(&pl_base);
+    plan_init(&pl_base, "procs", seed);
+    procs_gen(&pl_base, seed, c2);
+    /* fault-free base run with recording on; its own verdict is discarded here (it is placement #0 of the sweep) */
+    const int nv0 = g_nviol; const uint64_t h0 = g_trace_hash; const runstats s0 = g_stats; const bool tr0 = g_trace_on;
+    g_trace_on = false; g_rec_on = true; g_nrec = 0; g_nevt = 0;
+    procs_run(&pl_base);
+    g_rec_on = false; g_trace_on = tr0; g_nviol = nv0; g_trace_hash = h0; g_stats = s0;
+    npl = 0;
+    for (int r = 0; r < g_nrec; r++) {
+        const callrec *c = &g_rec[r];
+        const double tend = (c->t1 >= 0.0) ? c->t1 : (g_nevt ? g_evt[g_nevt - 1] : c->t0);
+        /* instants in the window at which anything happened: the call instant, the next one, one in the middle, the return instant */
+        double inst[4]; int ni = 0;
+        inst[ni++] = c->t0;
+        int first = -1, last = -1;
+        for (int e = 0; e < g_nevt; e++) if (g_evt[e] > c->t0 && g_evt[e] <= tend) { if (first < 0) first = e; last = e; }
+        if (first >= 0) { inst[ni++] = g_evt[first]; if (last > first + 1) inst[ni++] = g_evt[(first + last) / 2]; if (last > first) inst[ni++] = g_evt[last]; }
+        int kinds[8], nk = 0;
+        kinds[nk++] = 1; kinds[nk++] = 2; kinds[nk++] = 6;
+        if (guard_op(c->op)) { kinds[nk++] = 3; kinds[nk++] = 4; }
+        if (c->op == OP_WAITE) kinds[nk++] = 5;
+        if (c->op == OP_YIELD) kinds[nk++] = 8;
+        if (c->op == OP_CWAIT) kinds[nk++] = 9;
+        const int64_t vp = (c->prio > -1000000 && c->prio < 1000000) ? c->prio : 0;
+        for (int i = 0; i < ni; i++) {
+            const double d4 = (inst[i] - c->t0) * 4.0;
+            if (!(d4 >= 0.0 && d4 < 999.0) || d4 != (double)(int64_t)d4) continue;
+            for (int k = 0; k < nk; k++) for (int sgn = -1; sgn <= 1; sgn += 2) {
+                if (npl >= MAXPLACE * 4) break;
+                placement *q = &PL[npl++];
+                q->victim = c->pid; q->stepk = c->stepk; q->delay = (int64_t)d4; q->prio = vp + sgn; q->kind = kinds[k];
+                q->arg = (kinds[k] == 1) ? vp + sgn : (kinds[k] == 6) ? vp + 1 : 0;
+            }
+        }
+    }
+    pl_seed = seed; pl_valid = true; snprintf(pl_cfg, sizeof pl_cfg, "%s", cfg);
+}
+
+static int procs_sweep(uint64_t seed, const char *cfg, int pick, plan *out)
+{
+    if (!pl_valid || pl_seed != seed || strcmp(pl_cfg, cfg) != 0) enumerate(seed, cfg);
+    /* at most MAXPLACE placements per base program, by a fixed stride; placement 0 is the fault-free base itself */
+    const int stride = (npl + MAXPLACE - 1) / MAXPLACE > 0 ? (npl + MAXPLACE - 1) / MAXPLACE : 1;
+    const int n = 1 + (npl + stride - 1) / stride;
+    if (pick < 0) return n;
+    plan_init(out, "procs", mix64(seed, (uint64_t)pick + 1u));
+    for (int i = 0; i < pl_base.n; i++) { pline *l = plan_add(out, pl_base.l[i].op, 0); *l = pl_base.l[i]; }
+    if (pick > 0) {
+        const placement *q = &PL[(pick - 1) * stride < npl ? (pick - 1) * stride : npl - 1];
+        plan_add(out, "F", 6, (int64_t)q->victim, (int64_t)q->stepk, q->delay, q->prio, (int64_t)q->kind, q->arg);
+    }
+    return n;
+}
+
 const engine eng_procs = {
+    .sweep = procs_sweep,
     .name = "procs", .props = "C04 C05 C06 C07 C08 C09 C11 C12 C13 C14", .gen = procs_gen, .run = procs_run,
     .rule = "runs in which at least one fault (interrupt, stop, timer expiry aside, preemption, guard cancel/remove, event cancel, priority change) landed on a blocked operation",
 };
